@@ -194,10 +194,15 @@ fn check_parent(run: &Run, pnode: &Node, cfg: &AlphaCfg, max_batch: usize) {
                     // what the state accepted (an attempt meant to fail may legitimately succeed: the grandfathered faucet on mainnet
                     // may be applied again, and then its companion transaction is part of the block)
                     let mut applied: std::collections::BTreeSet<melstructs::TxHash> = Default::default();
+                    let mut an_attempt_meant_to_fail_succeeded = false;
+                    // the same members applied one at a time to a state that sees no failed attempts (the control)
+                    let mut control = parent.next_unsealed();
                     for t in batch.iter() {
+                        let control_accepts = control.apply_tx(t).is_ok();
                         for inv in &invalid {
                             if u.apply_tx(inv).is_ok() {
                                 applied.insert(inv.hash_nosigs());
+                                an_attempt_meant_to_fail_succeeded = true;
                             }
                         }
                         // attempts that hold the transaction twice (a re-signed copy; a rival spender of the same coins) come first: they
@@ -219,7 +224,16 @@ fn check_parent(run: &Run, pnode: &Node, cfg: &AlphaCfg, max_batch: usize) {
                             }
                         }
                         if !in_block {
-                            u.apply_tx(t).ok()?;
+                            if let Err(e) = u.apply_tx(t) {
+                                // the transaction is acceptable on a state that has seen no failed attempts (the control
+                                // accepts it); if every attempt before it was refused, the refusals have left something behind
+                                // (a member that is only acceptable inside its batch - the spend of a fresh stake's change - is
+                                // refused by the control too)
+                                if an_attempt_meant_to_fail_succeeded || !control_accepts {
+                                    return None;
+                                }
+                                return Some(Err(format!("{}", e)));
+                            }
                             applied.insert(t.hash_nosigs());
                         }
                         let _ = u.apply_tx(t);
@@ -227,20 +241,34 @@ fn check_parent(run: &Run, pnode: &Node, cfg: &AlphaCfg, max_batch: usize) {
                         // a batch whose *last* member fails late (a faucet already in the block): its earlier members must not stay behind
                         if t.kind == melstructs::TxKind::Faucet {
                             for v in valid_others.iter().filter(|v| !batch.iter().any(|b| b.hash_nosigs() == v.hash_nosigs() || b.inputs.iter().any(|i| v.inputs.contains(i)))) {
+                                run.outcome("failed-attempts:late-failing-batch-tried");
                                 if u.apply_tx_batch(&[v.clone(), t.clone()]).is_ok() {
                                     applied.insert(v.hash_nosigs());
                                 }
                             }
                         }
                     }
-                    Some((u.seal(*act), applied.len()))
+                    Some(Ok((u.seal(*act), applied.len())))
                 });
-                if let Ok(Some((c, accepted))) = seq {
+                if let Ok(Some(Err(e))) = &seq {
+                    run.transition();
+                    run.violation(
+                        "C06",
+                        "refused-attempts-make-an-honest-transaction-fail".into(),
+                        format!("a proposer on [{}] whose earlier attempts (invalid transactions, a batch holding a transaction twice, a rival pair) were all refused cannot apply the honest [{}] any more: {}", path, label, e),
+                        json!({"parent_path": path, "block": label}),
+                    );
+                    run.validated();
+                }
+                if let Ok(Some(Ok((c, accepted)))) = seq {
                     let blk = c.to_block();
                     run.transition();
                     if blk.transactions.len() != accepted {
                         run.violation("C06", "failed-attempt-left-a-transaction".into(), format!("after failed attempts the block [{}] on [{}] holds {} transactions although {} were accepted", label, path, blk.transactions.len(), accepted), json!({"parent_path": path, "block": label}));
-                    } else if let Ok(Err(e)) = guard(|| parent.apply_block(&blk).map(|s| s.header())) {
+                    } else if let Ok(Err(e)) = guard(|| {
+                        run.outcome("failed-attempts:block-handed-to-its-parent");
+                        parent.apply_block(&blk).map(|s| s.header())
+                    }) {
                         run.violation(
                             "C06",
                             "rejects-block-built-with-failed-attempts".into(),
